@@ -966,6 +966,22 @@ func runC08(res *lp.Result) {
 			codec = segment.NewCodecWithCompression(lz4.Compressor{})
 		}
 		ps := [][]byte{rng.Bytes(64), text(300), rng.Bytes(48), bytes.Repeat([]byte{7}, 500), rng.Bytes(200), {}}
+		// … and payloads at the boundary between "sent compressed" and "sent as it is": the LZ4 block one byte shorter than, exactly
+		// as long as, and one byte longer than the payload (found by search over short texts with one repetition and a distinct tail)
+		{
+			distinct := []byte("uvwxyzABCDEFGHIJKLMNOPQRSTabcdefghijklmnopqrst456789")
+			hit := map[int]int{}
+			for rep := 2; rep <= 8; rep++ {
+				for tail := 0; tail <= len(distinct); tail++ {
+					p := append(bytes.Repeat([]byte("0123"), rep), distinct[:tail]...)
+					if c, err := lz4Raw(p); err == nil && len(c)-len(p) >= -1 && len(c)-len(p) <= 1 && hit[len(c)-len(p)] < 3 {
+						hit[len(c)-len(p)]++
+						ps = append(ps, p)
+						res.Count(fmt.Sprintf("segment-payload/lz4-block-length-minus-payload-length=%d", len(c)-len(p)))
+					}
+				}
+			}
+		}
 		var stream bytes.Buffer
 		for i, p := range ps {
 			codec.EncodeSegment(&segment.Segment{Header: &segment.Header{IsSelfContained: i%2 == 0}, Payload: &segment.Payload{UncompressedData: append([]byte{}, p...)}}, &stream)
